@@ -733,7 +733,8 @@ class Fingerprint(str):
 class SorteDeque(collections.deque):
     """A deque subclass that tries to maintain sorted ordering using bisect"""
     def insort(self, item):
-        i = bisect.bisect_left(self, item)
+        # insert after equal items, so that items that compare equal keep their insertion order
+        i = bisect.bisect_right(self, item)
         self.rotate(- i)
         self.appendleft(item)
         self.rotate(i)
